@@ -1,6 +1,8 @@
 (* Property C19 — segment-level kernels are exact and symmetric.
-   This file holds only the statements, each closed by the lemma that proves it. *)
-From GJ Require Import Base Kernel KernelSpec RaycastProofs KernelProofs.
+   Only statements, each closed by the lemma that proves it. *)
+From Coq Require Import QArith.
+From GJ Require Import Base Kernel KernelSpec RaycastProofs KernelProofs IntersectsProofs IntersectsQ.
+Open Scope Z_scope.
 
 (* 'on' exactly when the point lies on the closed segment *)
 Theorem C19_raycast_on : forall s p, raycast_on s p = true <-> on_seg s p.
@@ -13,6 +15,35 @@ Proof. exact raycast_in_iff. Qed.
 Theorem C19_raycast_endpoint_order : forall a b p, raycast (a, b) p = raycast (b, a) p.
 Proof. exact raycast_sym. Qed.
 
+(* segment-intersects-segment: true exactly when the closed segments share a point *)
+Theorem C19_intersects_orientation : forall s o, intersects_segment s o = true <-> seg_meet s o.
+Proof. exact intersects_segment_iff. Qed.
+
+Theorem C19_intersects_common_point : forall s o,
+  intersects_segment s o = true <-> exists q, on_segQ s q /\ on_segQ o q.
+Proof. exact intersects_segment_iff_common_point. Qed.
+
+Theorem C19_intersects_symmetric : forall s o, intersects_segment s o = intersects_segment o s.
+Proof. exact intersects_segment_sym. Qed.
+
+Theorem C19_contains_segment : forall s o,
+  seg_contains_segment s o = true <-> (on_seg s (fst o) /\ on_seg s (snd o)).
+Proof. exact seg_contains_segment_iff. Qed.
+
+Theorem C19_collinear_point : forall s p, collinear_point s p = true <-> cross (fst s) (snd s) p = 0.
+Proof. exact collinear_point_iff. Qed.
+
+(* the pinned (pre-repair) code violated symmetry and exactness: finding F1, fixed in /repo *)
+Theorem C19_pinned_refuted : exists s o,
+  intersects_segment_pinned s o = false /\ intersects_segment_pinned o s = true /\ seg_meet s o.
+Proof. exact intersects_segment_pinned_refuted. Qed.
+
 Print Assumptions C19_raycast_on.
 Print Assumptions C19_raycast_in.
 Print Assumptions C19_raycast_endpoint_order.
+Print Assumptions C19_intersects_orientation.
+Print Assumptions C19_intersects_common_point.
+Print Assumptions C19_intersects_symmetric.
+Print Assumptions C19_contains_segment.
+Print Assumptions C19_collinear_point.
+Print Assumptions C19_pinned_refuted.
